@@ -125,7 +125,7 @@ theorem Rel.listen_frame (h : Rel seen y m) {y' : State} {m' : MState}
     (mf : m'.fans = m.fans) (g1 : m'.cap = m.cap) (g2 : m'.ver = m.ver) (g3 : m'.cnt = m.cnt)
     (g4 : m'.content = m.content)
     (hl : RelListen y'.srv y'.slots m'.slots) : Rel seen y' m' := by
-  refine ⟨hok, ?_, ?_, hl, ?_, ?_, ?_, ?_⟩
+  refine ⟨hok, ?_, ?_, hl, ?_, ?_, ?_, ?_, ?_⟩
   · exact ⟨by rw [g1, hrest.cap]; exact h.g.cap, by rw [g2, hrest.ver]; exact h.g.ver,
       by rw [g3, hrest.cnt]; exact h.g.cnt, by rw [g4, hcontent]; exact h.g.content⟩
   · rw [hrest.sessions]
@@ -151,6 +151,11 @@ theorem Rel.listen_frame (h : Rel seen y m) {y' : State} {m' : MState}
   · constructor
     · rw [hrest.sessions]; exact h.seen.sess
     · intro k; rw [hrest.infl]; exact h.seen.infl k
+  · intro k hk
+    rw [hrest.infl] at hk
+    have := h.gate k hk
+    simp only [gateSend, hrest.cap] at this ⊢
+    exact this
 
 /-- the monitor's list of live listens after the observation `o` of a listen request with id `id` -/
 def listensAfter (L : List MListen) (id : Nat) : Option (List Kind × List Nat) → List MListen
